@@ -537,6 +537,89 @@ static TOut run_transform(Ctx &c, const Op &op, void *obj, const sim::OpSim &cfg
     return t;
 }
 
+// fault nested_call for transforms: every member of an application parallel region of H members runs the same
+// transform on its OWN object and its OWN buffers (objects are built before and destroyed after the region by
+// the host).  The library's regions are then nested teams of one; each member's result must be the specified
+// transform (field equality) and bit-identical to the one-member execution, whatever the other members do
+// meanwhile; the members are scheduled, preempted and race-checked like any team.
+static void nested_transform(Ctx &c, const Op &op, const std::vector<uint64_t> &in, const std::vector<uint64_t> &expect, const std::vector<uint64_t> &ref_out, const sim::OpSim &mc0)
+{
+    const int H = op.host_team;
+    const uint64_t ncols = op.ncols;
+    const bool ext = op.kind == plan::K_EXTEND;
+    const uint64_t rows_out = ext ? op.n_ext : op.n;
+    const size_t in_elems = op.n * ncols, out_elems = rows_out * ncols;
+    const bool inplace = ext ? op.dst == plan::D_SRC : op.dst != plan::D_OTHER;
+    g_misalign = op.misaligned_bufs;
+    std::vector<std::unique_ptr<HBuf>> Xs, Os, Bs;
+    for (int h = 0; h < H; h++)
+    {
+        Xs.emplace_back(new HBuf(inplace ? out_elems : in_elems, "src(member)"));
+        Xs.back()->fill(op.dirty_bufs, derive_seed(op.garbage_seed, 31 + (uint64_t)h));
+        Xs.back()->load(in, in_elems);
+        Os.emplace_back(new HBuf(inplace ? 0 : out_elems, "dst(member)"));
+        Os.back()->fill(op.dirty_bufs, derive_seed(op.garbage_seed, 41 + (uint64_t)h));
+        Bs.emplace_back(new HBuf(op.buffer ? out_elems : 0, "buffer(member)"));
+        Bs.back()->fill(op.dirty_bufs, derive_seed(op.garbage_seed, 51 + (uint64_t)h));
+    }
+    g_misalign = false;
+    sim::OpSim mc = mc0;
+    mc.replay = op.schedule2;
+    mc.step_limit = mc0.step_limit * (uint64_t)H + 1000000;
+    std::vector<void *> objs((size_t)H, nullptr);
+    std::vector<char> ran(1, 1);
+    sim::IcvState icv = sim::icv_save();
+    sim::OpStats st = simulate(mc, [&] {
+        for (int h = 0; h < H; h++)
+            objs[h] = shim::ntt_new(std::max<uint64_t>(op.maxn, std::max<uint64_t>(ext ? op.n_ext : op.n, 1)), op.obj_threads, ext ? 1 : op.extension);
+        ran = host_region(H, [&](int h) {
+            uint64_t *src = Xs[h]->p();
+            uint64_t *dst = ext ? (inplace ? src : Os[h]->p()) : pick_dst(op.dst, src, Os[h]->p());
+            uint64_t *buf = op.buffer ? Bs[h]->p() : nullptr;
+            if (ext)
+                shim::ntt_extendPol(objs[h], dst, src, op.n_ext, op.n, ncols, buf, op.nphase, op.nblock);
+            else if (op.kind == plan::K_INTT)
+                (op.inv_via_ntt ? shim::ntt_NTT_inverse : shim::ntt_INTT)(objs[h], dst, src, op.n, ncols, buf, op.nphase, op.nblock);
+            else
+                shim::ntt_NTT(objs[h], dst, src, op.n, ncols, buf, op.nphase, op.nblock);
+        });
+        for (int h = 0; h < H; h++)
+            shim::ntt_delete(objs[h]);
+    });
+    sim::icv_restore(icv);
+    c.res.probes.insert("transform_called_from_application_region");
+    c.res.faults["nested_call"]++;
+    const char *prop = prop_of(op);
+    for (int h = 0; h < H; h++)
+    {
+        if (!ran[h])
+            continue;
+        std::vector<uint64_t> got = inplace ? Xs[h]->vec() : Os[h]->vec();
+        got.resize(out_elems);
+        long d = first_diff_field(got, expect);
+        if (d >= 0)
+            c.violation("nested-call-mismatch", {prop, "C12"}, op, "every member of an application region that runs the transform on its own object and buffers gets the specified result",
+                        "member " + std::to_string(h) + ": word " + std::to_string(d) + " wrong");
+        else if (first_diff_bits(got, ref_out) >= 0)
+            c.violation("single-member-mismatch", {"C12"}, op, "bit-identical to the one-member execution (call made by a member of an application region)",
+                        "member " + std::to_string(h) + ": word " + std::to_string(first_diff_bits(got, ref_out)));
+        std::string what;
+        if (!Xs[h]->canary_ok(what) || !Os[h]->canary_ok(what) || !Bs[h]->canary_ok(what))
+            c.violation("stray-write", {"C18", prop}, op, "canary (call made by a member of an application region)", what);
+    }
+    // schedule / team accounting of the nested execution (races, memory findings); not recorded for replay of
+    // the main execution's decision list
+    bool rec = g_record;
+    g_record = false;
+    account_main(c, op, st, 1, nullptr);
+    g_record = rec;
+    if (g_record)
+    {
+        c.res.recorded2[c.op_index] = st.recorded;
+        c.res.recorded_truncated |= st.recorded_truncated;
+    }
+}
+
 static void ensure_slot(Ctx &c, const Op &op)
 {
     if (op.obj < 0)
@@ -835,6 +918,8 @@ static void exec_transform(Ctx &c, const Op &op)
         else
             c.violation("single-member-mismatch", {"C12"}, op, "bit-identical to the one-member execution", buf);
     }
+    if (op.host_team > 1 && op.kind != plan::K_ROUNDTRIP)
+        nested_transform(c, op, in, expect, ref.out, mc);
 }
 
 // ---------------------------------------------------------------------------------------------
